@@ -4,7 +4,7 @@ import vf, gen
 from props import C14
 
 ID = 'C15'
-FLAVORS = ['default', 'dtostre']
+FLAVORS = ['default', 'dtostre', 'strict']
 RULE = ('direct calls with exact-size heap buffers under ASan: SCPI_DoubleToStr / SCPI_FloatToStr (D2S/F2S), SCPI_NumberToStr with every unit name and every special-number name (N2S), '
         'SCPI_dtostre (DTOSTRE), the integer formatters (I2S) and SCPI_ParamCopyText (scenario with quoted text and doubled quotes), each for every buffer length 0..40 crossed with values whose text is '
         'shorter than, equal to, one longer than and much longer than the buffer. Non-trivial: the text does not fit the buffer; distinct = distinct lines.')
@@ -186,6 +186,9 @@ def streams(tier, rng):
         return res
     yield {'name': 'fill-dtostre-build', 'flavor': 'dtostre', 'cases': dcases[:: (2 if tier == 'quick' else 1)], 'model': False, 'post': dcopy_post,
            'oracle': lambda c, o: ([] if (o.startswith('X') or not c.startswith('DTOSTRE')) else oracle(c, o)), 'nontrivial': lambda c, o: c if info[c][2] <= 12 else None}
+    # strict ISO C build: the library's own strnlen / strncasecmp bound the copies of SCPI_NumberToStr
+    yield {'name': 'fill-strict-iso', 'flavor': 'strict', 'cases': [c for c in cases if c.startswith('N2S')], 'model': False, 'oracle': oracle,
+           'nontrivial': lambda c, o: c if info[c][2] <= 12 else None}
     # quoted-text copy
     tcases, tinfo = [], {}
     texts = [b'', b'a', b'ab"c', b'""', b'"a"', b'a' * 10, b'x"y"z"w', b"it's", b'"' * 5]
